@@ -928,6 +928,7 @@ def success_edges(b):
     """[(origins, block)]: blocks entered only when the Result(s) `origins` (see result_origins) were Ok: the 0-edge of a
     switch on discriminant(x) where x is a Result (Ok = 0) or the ControlFlow of x? (Continue = 0)."""
     out = []
+    shared = {}
     for g in range(b.n):
         t = b.term(g)
         if t["k"] != "switch" or t["dty"] == "bool":
@@ -940,7 +941,13 @@ def success_edges(b):
             continue
         src = d[3]["p"]
         if src["p"]:
-            continue
+            # a component of a tuple built once from two results: `match (a, b) { (Ok(..), _) | (Err(_), Ok(..)) => .. }`
+            fl = [e for e in src["p"] if e != "*"]
+            ops_ = b._frozen_agg(src["l"]) if len(fl) == 1 and isinstance(fl[0], dict) and "f" in fl[0] else None
+            q_ = op_place(ops_[fl[0]["f"]]) if ops_ is not None and fl[0]["f"] < len(ops_) else None
+            if q_ is None or q_["p"]:
+                continue
+            src = q_
         ty = b.lty(src["l"])
         if not (re.match(r"^(std|core)::result::Result<", ty) or re.match(r"^(std|core)::ops::ControlFlow<(std|core)::result::Result<", ty)):
             continue
@@ -950,6 +957,12 @@ def success_edges(b):
         for x in tgt:
             if x not in other and len(b.pred[x]) == 1:
                 out.append((org, x))
+            elif x not in other:
+                shared.setdefault(x, {})[g] = org
+    # an arm entered from several tests (an or-pattern): all of its ways in are such edges — it carries all their origins
+    for x, by in shared.items():
+        if set(b.pred[x]) == set(by):
+            out.append((set().union(*by.values()), x))
     return out
 
 
